@@ -64,6 +64,10 @@ pub struct HelloCase {
     pub junk: bool,
     pub no_caps: bool,
     pub trailer: bool,
+    /// content between the end of the root element and the end of the message: 0 none, 1 an empty
+    /// element, 2 text, 3 a stray end tag, 4 a second complete `<hello>`, 5 an `<rpc-reply>`,
+    /// 6 a comment (the only one that leaves the message a well-formed document)
+    pub after: u8,
 }
 
 impl HelloCase {
@@ -141,6 +145,21 @@ impl HelloCase {
             s.push_str("<!-- c -->");
         }
         s.push_str(&format!("</{p}hello>"));
+        match self.after {
+            1 => s.push_str("<junk/>"),
+            2 => s.push_str("garbage"),
+            3 => s.push_str(&format!("</{p}hello>")),
+            4 => {
+                let again = HelloCase { after: 0, trailer: false, decl: false, ..self.clone() }.xml();
+                s.push_str(&again);
+            }
+            5 => s.push_str(&format!(
+                "<rpc-reply xmlns=\"{}\" message-id=\"1\"><ok/></rpc-reply>",
+                mt::BASE_NS
+            )),
+            6 => s.push_str("<!-- after -->"),
+            _ => {}
+        }
         if self.trailer {
             s.push_str("]]>]]>");
         }
@@ -154,7 +173,9 @@ impl HelloCase {
             && self.sid2.is_none()
             && !self.junk
             // an element of a foreign namespace is not the NETCONF element of that name
-            && self.foreign == 0;
+            && self.foreign == 0
+            // anything but a comment after the root element: not a well-formed document
+            && matches!(self.after, 0 | 6);
         // a capability text with a reference that cannot be resolved is not a well-formed hello
         let uris_ok = self
             .extra
@@ -250,6 +271,7 @@ pub fn gen(opts: &Opts, rng: &mut Rng) -> Vec<HelloCase> {
                     junk: false,
                     no_caps: false,
                     trailer: true,
+                    after: 0,
                 });
             }
         }
@@ -278,6 +300,7 @@ pub fn gen(opts: &Opts, rng: &mut Rng) -> Vec<HelloCase> {
                     junk: v == 7,
                     no_caps: false,
                     trailer: v != 2,
+                    after: 0,
                 });
             }
         }
@@ -300,6 +323,7 @@ pub fn gen(opts: &Opts, rng: &mut Rng) -> Vec<HelloCase> {
                     junk: false,
                     no_caps: false,
                     trailer: true,
+                    after: 0,
                 });
             }
         }
@@ -323,6 +347,32 @@ pub fn gen(opts: &Opts, rng: &mut Rng) -> Vec<HelloCase> {
                         junk: false,
                         no_caps: false,
                         trailer: true,
+                        after: 0,
+                    });
+                }
+            }
+        }
+    }
+    // content after the root element, every kind, on an otherwise valid hello
+    for b in &base_sets {
+        for after in 1..=6u8 {
+            for prefix in [false, true] {
+                for trailer in [true, false] {
+                    out.push(HelloCase {
+                        bases: b.clone(),
+                        extra: vec![],
+                        sid: Some("4".into()),
+                        sid_dup: false,
+                        sid2: None,
+                        foreign: 0,
+                        prefix,
+                        sid_first: false,
+                        comments: 0,
+                        decl: false,
+                        junk: false,
+                        no_caps: false,
+                        trailer,
+                        after,
                     });
                 }
             }
@@ -352,6 +402,7 @@ pub fn gen(opts: &Opts, rng: &mut Rng) -> Vec<HelloCase> {
             junk: rng.chance(1, 15),
             no_caps: rng.chance(1, 15),
             trailer: rng.chance(4, 5),
+            after: if rng.chance(1, 10) { 1 + rng.below(6) as u8 } else { 0 },
         });
     }
     out
